@@ -698,6 +698,15 @@ def sum_edge_programs(tier, rnd):
             st2 = [["foreach", ["l"], "i", [E([">=", ["it", "i"], lit(lo)])]], E(["<", ["sum", ["l"]], F("t")])]
             out.append({"tag": "sum_edge", "desc": "%d x %s%d elements >= %d, sum < t(%d bit)" % (n, ety[0], ety[1], lo, tw),
                         "prog": one_class(lf, st2), "world": [["top", "obj", "Top"]], "ops": [["randomize", ["top"]]]})
+    # one list's sum / product used in several statements of different widths, and inside a foreach body
+    lf = [["l", "list", ["u", 8], 3, True, False], ["m", "list", ["u", 8], 2, True, False], fld("a", ("u", 8)), fld("w", ("u", 16)), fld("q", ("u", 4))]
+    SM, SL = ["sum", ["m"]], ["sum", ["l"]]
+    for st in ([E(["==", SM, lit(40)]), E([">", F("a"), SM])], [E([">", F("a"), SM]), E(["==", SM, lit(40)])], [E(["==", F("w"), SM]), E(["<", F("a"), SM]), E(["<", F("q"), SM])],
+               [E(["==", SM, lit(40)]), ["foreach", ["l"], "i", [E([">", ["it", "i"], SM])]]],
+               [E(["<", SL, lit(90)]), ["foreach", ["l"], "i", [E(["<=", ["*", ["it", "i"], lit(2)], SL])]], E([">", F("w"), SL])],
+               [E(["<", ["product", ["m"]], lit(50)]), E([">", F("w"), ["product", ["m"]]]), ["foreach", ["l"], "i", [E(["<", ["it", "i"], ["product", ["m"]]])]]]):
+        out.append({"tag": "sum_edge", "desc": "reduction reused %s" % (st,), "prog": one_class(lf, st), "world": [["top", "obj", "Top"]],
+                    "ops": [["randomize", ["top"]], ["randomize", ["top"]], ["randomize_with", ["top"], [E(["<", F("a"), ["sum", ["l"]]])]]]})
     # a failing call, then the list shrinks, then a call that must succeed again
     lf = [["l", "list", ["u", 8], 6, True, False]]
     st = [["foreach", ["l"], "i", [E(["<", ["it", "i"], lit(4)]), ["if", [[[">", ["idx", "i"], lit(0)], [E([">", ["it", "i"], F("l", ["idx", "i", -1])])]]], None]]]]
